@@ -565,6 +565,49 @@ def history_cases():
     return C
 
 
+HISTORY_POOL = ["to_dense", "matmul", "t_matmul", "diagonal", "getitem_slice", "getitem_tensor", "add_diagonal", "add_jitter", "add_tensor",
+                "mul_const", "solve", "solve_iterative", "inv_quad_logdet", "inv_quad_logdet_iterative", "logdet", "cholesky",
+                "root_decomposition", "root_inv_decomposition", "diagonalization", "sqrt_inv_matmul", "zero_mean_mvn_samples",
+                "pivoted_cholesky", "cat_rows", "add_low_rank", "clone", "detach", "requires_grad_", "expand", "representation_roundtrip",
+                "svd", "transpose_dense", "sum_rows"]
+
+
+def random_history_cases(n):
+    """n random operation sequences (length 3-7) on a random PSD-capable class; two operators share the caller tensors;
+    the sequence is a deterministic function of its index (so that a replay file can name it)"""
+    C = []
+    M = _methods()
+    pool = [m for m in HISTORY_POOL if m in M]
+    for k in range(n):
+        r0 = random.Random("history|%d" % k)
+        cls = r0.choice(opbuild.PSD_CAPABLE)
+        seq = [r0.choice(pool) for _ in range(r0.randrange(3, 8))]
+        batch = r0.choice([[], [], [2]])
+
+        def b(ar, rng, cls=cls, seq=seq, batch=batch):
+            e = opbuild.gen(rng, cls, batch=list(batch), m=4, psd=True)
+            op = ar.op(e, "op")
+            op2 = op.representation_tree()(*op.representation())
+            ar.watch_op(op2, "op_shared")
+            shp = tuple(op.shape)
+            thunks = [M[m][1](op if rng.random() < 0.5 else op2, ar, rng, shp) for m in seq]
+
+            def go():
+                for i, th in enumerate(thunks):
+                    try:
+                        th()
+                    except HistoryHit:
+                        raise
+                    except Exception:
+                        pass              # a step that raises (unsupported combination) must still leave everything intact
+                    h = ar.effects()
+                    if h:
+                        raise HistoryHit(i, seq[i], h)
+            return go
+        C.append(("history.random.%s" % cls, "%d:%s" % (k, ">".join(seq)), b))
+    return C
+
+
 class HistoryHit(Exception):
     def __init__(self, step, method, hits):
         super().__init__("step %d (%s): %s" % (step, method, hits))
